@@ -52,7 +52,7 @@ func (w *c10Builder) ws() {
 }
 
 var c10InnerKeys = []string{"a", "b", "type", "log", "asset", "version", "creator", "entries", "pages", "k y", ""}
-var c10Scalars = []string{"1", "-2.5e3", "true", "false", "null", `"x"`, `""`, `"type"`, `"log"`, `"asset"`, `"log.version"`, `"Feature"`, `"2.0"`, `"1.0"`, `"version"`, `"a,b]}"`, `"é\n"`, `"é"`}
+var c10Scalars = []string{"1", "-2.5e3", "true", "false", "null", `"x"`, `""`, `"\ud83d"`, `"x\uDC00y"`, `"\ud800\u0041"`, `"type"`, `"log"`, `"asset"`, `"log.version"`, `"Feature"`, `"2.0"`, `"1.0"`, `"version"`, `"a,b]}"`, `"é\n"`, `"é"`}
 
 // value writes an arbitrary JSON value; returns true if it is a non-empty container.
 func (w *c10Builder) value(depth int) bool {
